@@ -2,6 +2,8 @@ import MosnVerif.Lemmas.Transfer
 import MosnVerif.Lemmas.Shutdown
 import MosnVerif.Lemmas.StageManager
 import MosnVerif.Lemmas.H2GoAway
+import MosnVerif.Lemmas.ShutdownVirtual
+import MosnVerif.Lemmas.TransferLookup
 /-!
 # C11 — graceful shutdown and hot upgrade lose no requests (property theorems only; level `other`)
 
@@ -74,6 +76,71 @@ theorem transfer_type_distinguishes : recvIsWrite (typeByte false) = true ∧ re
 example : decodeRead (encodeRead [0, 0, 0, 1, 0, 0, 0, 2, 255] [7, 7] ++ [9]) = some ([0, 0, 0, 1, 0, 0, 0, 2, 255], [7, 7], [9]) := by decide
 example : encodeRead [1, 2, 3] [4] = [0, 0, 0, 3, 0, 0, 0, 1, 1, 2, 3, 4] := by decide
 example : decodeRead ((encodeRead [1, 2, 3] [4]).take 11) = none := by decide
+
+/-! ## which listener of the new process adopts a handed-over connection (`Model/TransferLookup.lean`) -/
+section lookup
+open MosnVerif.Model.TransferLookup MosnVerif.Lemmas.TransferLookup
+
+/-- **handover_finds_listener**: for EVERY list of listeners of the new process and every connection whose local
+address was accepted by some listener `L` of the list — `L` configured on exactly that address, or on the IPv4 or the
+IPv6 wildcard of its port (either opens a dual-stack socket: IPv6 AND IPv4 peers, whose local address is IPv4) — the
+regenerated look-up of `transferFindListen` returns a listener; it is a listener of the list, of the connection's
+network, configured on the connection's address or on a wildcard of its port; and unless the list holds another
+wildcard listener of that port it is `L` (its address) or a listener on exactly the connection's address. -/
+theorem handover_finds_listener (ls : List Lst) (L : Lst) (a : Local) (hm : L ∈ ls) (hacc : accepted L a) :
+    ∃ R, find ls a = some R ∧ R ∈ ls ∧ accepted R a ∧
+      ((∀ M ∈ ls, M.network = a.network → (M.addr = v4wild a ∨ M.addr = v6wild a) → M.addr = L.addr) →
+        R.addr = L.addr ∨ R.addr = a.str) := by
+  obtain ⟨R, hR⟩ := findWith_isSome candidates ls a L hm hacc.1 (accepted_addr_mem_candidates L a hacc)
+  obtain ⟨h1, h2, h3⟩ := findWith_some candidates ls a R hR
+  refine ⟨R, hR, h1, ⟨h2, candidates_serve a R.addr h3⟩, ?_⟩
+  intro huniq
+  rcases candidates_serve a R.addr h3 with h | ⟨_, h⟩
+  · exact Or.inr h
+  · exact Or.inl (huniq R h1 h2 h)
+
+/-- a listener configured on exactly the connection's local address (e.g. the `bind_port: false` listener a
+`use_original_dst` listener handed the connection to) is preferred to the wildcard listener that owns the socket: the
+adopted connection is served by the same configuration as before the upgrade -/
+theorem handover_prefers_exact (ls : List Lst) (L : Lst) (a : Local) (hm : L ∈ ls) (hn : L.network = a.network)
+    (he : L.addr = a.str) : ∃ R, find ls a = some R ∧ R ∈ ls ∧ R.network = a.network ∧ R.addr = a.str :=
+  find_prefers_exact ls L a hm hn he
+
+/-- **the connection is adopted with its buffered bytes**: under the same hypotheses the new process creates the
+connection on that listener with exactly the bytes the old process had read and not consumed (and the TLS bytes), and
+the id it answers is the new connection's id, never `transferErr` -/
+theorem handover_adopts_with_buffer (ls : List Lst) (L : Lst) (a : Local) (hm : L ∈ ls) (hacc : accepted L a)
+    (buffered tls : Bytes) (h1 : buffered.length < 4294967296) (h2 : tls.length < 4294967296) (newId : Nat) :
+    (∃ R, adopt ls a buffered tls = some (R, buffered, tls) ∧ R ∈ ls ∧ accepted R a) ∧ answeredId ls a newId = newId := by
+  obtain ⟨R, hR, hmem, hs, _⟩ := handover_finds_listener ls L a hm hacc
+  refine ⟨⟨R, ?_, hmem, hs⟩, ?_⟩
+  · simp [adopt, hR, handover_buffer_intact buffered tls h1 h2]
+  · simp [answeredId, hR]
+
+/-- a connection no listener of the new configuration serves is not adopted: the old process is told `transferErr` -/
+theorem handover_unserved_refused (ls : List Lst) (a : Local) (h : ∀ M ∈ ls, ¬ accepted M a) (newId : Nat) :
+    find ls a = none ∧ answeredId ls a newId = Gen.Transfer.transferErr := by
+  have hn : find ls a = none := by
+    cases hf : find ls a with
+    | none => rfl
+    | some R =>
+      obtain ⟨h1, h2, h3⟩ := findWith_some candidates ls a R hf
+      exact absurd ⟨h2, candidates_serve a R.addr h3⟩ (h R h1)
+  exact ⟨hn, by simp [answeredId, hn, Gen.TransferLookup.noListenerAnswersErr]⟩
+
+-- non-vacuity: an IPv4 peer on a dual-stack `[::]` listener, next to a distractor and a listener on another port
+example : accepted ⟨"tcp", "[::]:2045"⟩ ⟨false, "tcp", "127.0.0.1:2045", "2045", true⟩ := by decide
+example : find [⟨"tcp", "0.0.0.0:80"⟩, ⟨"udp", "[::]:2045"⟩, ⟨"tcp", "[::]:2045"⟩] ⟨false, "tcp", "127.0.0.1:2045", "2045", true⟩
+    = some ⟨"tcp", "[::]:2045"⟩ := by decide
+-- an exact-address listener (e.g. one that binds no port) is preferred to the wildcard that accepted the connection
+example : find [⟨"tcp", "0.0.0.0:80"⟩, ⟨"tcp", "127.0.0.1:80"⟩] ⟨false, "tcp", "127.0.0.1:80", "80", true⟩ = some ⟨"tcp", "127.0.0.1:80"⟩ := by decide
+example : find [⟨"unix", "/tmp/a.sock"⟩] ⟨true, "unix", "/tmp/a.sock", "", false⟩ = some ⟨"unix", "/tmp/a.sock"⟩ := by decide
+-- the witness for the rule "one wildcard, chosen by the connection's address family": the IPv4 peer of a dual-stack
+-- listener finds nothing, the new process answers id 0 and the connection is lost
+example : findWith singleWildcard [⟨"tcp", "[::]:2045"⟩] ⟨false, "tcp", "127.0.0.1:2045", "2045", true⟩ = none := by decide
+-- why the last clause needs its hypothesis: with both wildcards of one port configured, the IPv4 one is found first
+example : find [⟨"tcp", "[::]:80"⟩, ⟨"tcp", "0.0.0.0:80"⟩] ⟨false, "tcp", "[::1]:80", "80", false⟩ = some ⟨"tcp", "0.0.0.0:80"⟩ := by decide
+end lookup
 
 /-! ## listener -/
 
@@ -185,6 +252,52 @@ example : (sysInit 150 false false).wf := by unfold Sys.wf; decide
 -- HTTP/2 traits: a stream that exists at the signal completes, a stream begun after the GOAWAY is refused (retryable)
 example : ((run (sysInit 150 true true) [.connect, .decoded 0, .signal GracefulStopping, .respDone 0]).conns.map (·.served)) = [1] := by decide
 example : ((run (sysInit 150 true true) [.connect, .bytes 0, .signal GracefulStopping, .decoded 0]).conns.map (fun c => (c.refusedReq, c.notified))) = [(1, 1)] := by decide
+
+/-! ## listeners that bind no port (`bind_port: false`, fed by a `use_original_dst` listener) -/
+
+/-- a listener that binds no port is never Running, whatever is done to it (`Start` ignores it, a restart too): the
+graceful stop must not depend on the listener having been Running -/
+theorem virtual_never_running (inherit : Bool) (ops : List LOp) :
+    (lisRun (lisInit false inherit) ops).state ≠ ListenerRunning ∧ accepting (lisRun (lisInit false inherit) ops) = false := by
+  have h := (lisRun_virtual (lisInit false inherit) ops rfl (by simp [lisInit, ListenerInited, ListenerRunning])).2
+  exact ⟨h, accepting_false_of_state _ h⟩
+
+/-- **virtual_listener_drains**: `Shutdown` of an initialised listener that is neither Closed nor already Stopped
+invokes the shutdown callback (go-away broadcast + drain) exactly once — in EVERY stage (hot upgrade: through the
+regenerated early return of `stopAccept`; SIGTERM: through the close branch), whether or not it binds a port, whatever
+its state (Inited for a listener that binds no port, Running for one that does). -/
+theorem virtual_listener_drains (l : Lis) (stage : Int) (hc : l.state ≠ ListenerClosed) (hs : l.state ≠ ListenerStopped) :
+    (lisShutdown l stage).2.shutdownCb = 1 :=
+  lisShutdown_cb l stage hc hs
+
+/-- outside the upgrade stage (SIGTERM: GracefulStopping) the callback runs whatever the listener's state and kind -/
+theorem shutdown_outside_upgrade_drains (l : Lis) (stage : Int) (h : stage ≠ Upgrading) :
+    (lisShutdown l stage).2.shutdownCb = 1 :=
+  lisShutdown_cb_close l stage (by simp [shutdownOnlyStops, h])
+
+/-- the event machine of a listener that binds no port: whatever happened before (any event list without a signal
+leaves it Inited), the first signal — in any stage — reaches every existing connection with the go-away and starts the
+drain; so `drain_waits` / `inflight_completes` protect the requests in flight on it. -/
+theorem virtual_goaway_broadcast (s : Sys) (stage : Int) (hx : s.exited = false)
+    (hc : s.lis.state ≠ ListenerClosed) (hs : s.lis.state ≠ ListenerStopped) :
+    (step s (.signal stage)).conns =
+      s.conns.map (fun c => { c with goAway := c.goAway + 1, notified := c.notified + (if s.notifies then 1 else 0) })
+    ∧ (step s (.signal stage)).draining = true ∧ (step s (.signal stage)).waited = 0 :=
+  goaway_broadcast s stage hx (by rw [virtual_listener_drains s.lis stage hc hs]; decide)
+
+-- non-vacuity: the virtual listener of the model is Inited, binds nothing; the hot-upgrade Shutdown and the SIGTERM
+-- Shutdown both run the callback; a second Shutdown in the upgrade stage does not (already Stopped)
+example : lisVirtual.state = ListenerInited ∧ lisVirtual.bind = false := by decide
+example : (lisShutdown lisVirtual Upgrading).2.shutdownCb = 1 ∧ (lisShutdown lisVirtual GracefulStopping).2.shutdownCb = 1 := by decide
+example : (lisShutdown (lisShutdown lisVirtual Upgrading).1 Upgrading).2.shutdownCb = 0 := by decide
+-- a request waiting for the upstream on a long-lived connection of a virtual listener holds the exit back in the
+-- upgrade stage, the connections (bolt with go-away) are notified
+example : let s := run (sysVirtual 150 true false 2) [.decoded 1, .signal Upgrading, .tick 10, .exit]
+    s.exited = false ∧ s.conns.map (·.notified) = [1, 1] ∧ s.lis.state = ListenerStopped := by decide
+example : (run (sysVirtual 150 true false 2) [.decoded 1, .signal Upgrading, .tick 10, .respDone 1, .exit]).exited = true := by decide
+-- the rule "only a Running listener stops accepting" (not MOSN's) skips exactly these listeners
+example : let stopOnlyRunning (st : Int) : Int × Bool := if st != ListenerRunning then (st, false) else (ListenerStopped, true)
+    (stopOnlyRunning lisVirtual.state).2 = false ∧ (stopAccept lisVirtual.state lisVirtual.bind false).2 = true := by decide
 
 /-! ## HTTP/2: the streams in flight when the graceful GOAWAY goes out (`Model/H2GoAway.lean`) -/
 section h2goaway
